@@ -1,0 +1,252 @@
+//! Verification hooks (compiled only with `--cfg actix_net_verif`).
+//!
+//! A stepped driver for the accept loop: builds an [`Accept`] from given listeners and
+//! accept-side worker handles *without* spawning any thread, and runs exactly one iteration of the
+//! real `poll_with` per [`AcceptDriver::step`] call. Read-only accessors expose the accept state.
+//! Yield points let a harness run worker-side actions inside the windows of `send_connection`.
+
+use std::{cell::RefCell, io, time::Duration};
+
+use mio::Poll;
+use tokio::sync::mpsc::{unbounded_channel, UnboundedReceiver};
+
+use super::{Accept, ServerSocketInfo};
+use crate::{
+    server::ServerCommand,
+    socket::MioListener,
+    waker_queue::{WakerInterest, WakerQueue, WAKER_TOKEN},
+    worker::WorkerHandleAccept,
+    ServerHandle,
+};
+
+/// Places in the real code at which the harness may interleave actions of other threads.
+#[derive(Debug, Clone, Copy, PartialEq, Eq)]
+pub enum Point {
+    /// accept thread: connection sent to worker `idx`, counter not yet incremented
+    AfterSend(usize),
+    /// worker `idx`: counter decremented and found crossing the limit, wake-up not yet queued
+    AfterDec(usize),
+}
+
+type Hook = Box<dyn FnMut(Point)>;
+
+thread_local! {
+    static SINGLE_STEP: RefCell<bool> = const { RefCell::new(false) };
+    static ITERATION_DONE: RefCell<bool> = const { RefCell::new(false) };
+    static EVENTS: RefCell<Vec<usize>> = const { RefCell::new(Vec::new()) };
+    static HOOK: RefCell<Option<Hook>> = const { RefCell::new(None) };
+}
+
+/// Install (or remove) the yield hook of the current thread.
+pub fn set_yield_hook(hook: Option<Hook>) {
+    HOOK.with(|h| *h.borrow_mut() = hook);
+}
+
+pub(crate) fn yield_point(p: Point) {
+    // take the hook out while it runs so that a nested yield point is a no-op, not a re-entry
+    let hook = HOOK.with(|h| h.borrow_mut().take());
+    if let Some(mut f) = hook {
+        f(p);
+        HOOK.with(|h| {
+            let mut slot = h.borrow_mut();
+            if slot.is_none() {
+                *slot = Some(f);
+            }
+        });
+    }
+}
+
+pub(crate) fn on_event(token: mio::Token) {
+    EVENTS.with(|e| e.borrow_mut().push(token.0));
+}
+
+/// true when the accept loop must return after the current iteration
+pub(crate) fn single_step() -> bool {
+    let s = SINGLE_STEP.with(|s| *s.borrow());
+    if s {
+        ITERATION_DONE.with(|d| *d.borrow_mut() = true);
+    }
+    s
+}
+
+/// A listener handed to the driver.
+pub enum ListenerSpec {
+    /// TCP
+    Tcp(std::net::TcpListener),
+    /// Unix domain socket
+    #[cfg(unix)]
+    Uds(std::os::unix::net::UnixListener),
+}
+
+/// Accept-side handle of a worker (opaque wrapper).
+pub struct AcceptHandle(pub(crate) WorkerHandleAccept);
+
+/// Clonable handle on the waker queue: the commands the server future and the workers send.
+#[derive(Clone)]
+pub struct WakerHandle(pub(crate) WakerQueue);
+
+impl WakerHandle {
+    /// `WakerInterest::Pause`
+    pub fn pause(&self) {
+        self.0.wake(WakerInterest::Pause)
+    }
+    /// `WakerInterest::Resume`
+    pub fn resume(&self) {
+        self.0.wake(WakerInterest::Resume)
+    }
+    /// `WakerInterest::Stop`
+    pub fn stop(&self) {
+        self.0.wake(WakerInterest::Stop)
+    }
+    /// `WakerInterest::Worker(handle)`: a replacement worker joins
+    pub fn worker(&self, handle: AcceptHandle) {
+        self.0.wake(WakerInterest::Worker(handle.0))
+    }
+    /// number of interests currently queued
+    pub fn queued(&self) -> usize {
+        self.0.guard().len()
+    }
+}
+
+/// What one iteration saw.
+#[derive(Debug, Clone)]
+pub struct StepReport {
+    /// tokens of the events of this iteration in the order mio returned them (`usize::MAX` = waker)
+    pub events: Vec<usize>,
+    /// the accept loop returned because it processed `Stop`
+    pub exited: bool,
+}
+
+/// Read-only snapshot of the accept state.
+#[derive(Debug, Clone)]
+pub struct AcceptState {
+    /// `Accept::next`
+    pub next: usize,
+    /// worker indices of `Accept::handles`, in order
+    pub handles: Vec<usize>,
+    /// availability bit per worker index `0..n`
+    pub avail: Vec<bool>,
+    /// `Availability::available()`
+    pub any_available: bool,
+    /// `Accept::paused`
+    pub paused: bool,
+    /// `Accept::timeout`
+    pub timeout: Option<Duration>,
+    /// per socket: remaining back-off (None = no deadline), saturating at zero
+    pub socket_deadlines: Vec<Option<Duration>>,
+}
+
+/// The real accept loop, stepped.
+pub struct AcceptDriver {
+    accept: Accept,
+    sockets: Box<[ServerSocketInfo]>,
+    cmd_rx: UnboundedReceiver<ServerCommand>,
+    waker: WakerQueue,
+    exited: bool,
+}
+
+impl AcceptDriver {
+    /// Build an `Accept` over `listeners` (token = position). Workers are added with
+    /// [`AcceptDriver::waker`] + `WakerHandle::worker` or passed in `handles`.
+    pub fn new(
+        listeners: Vec<ListenerSpec>,
+        make_handles: impl FnOnce(&WakerHandle) -> Vec<AcceptHandle>,
+    ) -> io::Result<Self> {
+        let (cmd_tx, cmd_rx) = unbounded_channel();
+        let poll = Poll::new()?;
+        let waker_queue = WakerQueue::new(poll.registry())?;
+        let handles = make_handles(&WakerHandle(waker_queue.clone()));
+        let sockets = listeners
+            .into_iter()
+            .enumerate()
+            .map(|(token, l)| {
+                let lst = match l {
+                    ListenerSpec::Tcp(l) => {
+                        l.set_nonblocking(true)?;
+                        MioListener::from(l)
+                    }
+                    #[cfg(unix)]
+                    ListenerSpec::Uds(l) => {
+                        l.set_nonblocking(true)?;
+                        MioListener::from(l)
+                    }
+                };
+                Ok((token, lst))
+            })
+            .collect::<io::Result<Vec<_>>>()?;
+        let (accept, sockets) = Accept::new_with_sockets(
+            poll,
+            waker_queue.clone(),
+            sockets,
+            handles.into_iter().map(|h| h.0).collect(),
+            ServerHandle::new(cmd_tx),
+        )?;
+        Ok(AcceptDriver { accept, sockets, cmd_rx, waker: waker_queue, exited: false })
+    }
+
+    /// handle on the waker queue
+    pub fn waker(&self) -> WakerHandle {
+        WakerHandle(self.waker.clone())
+    }
+
+    /// One iteration of the real `Accept::poll_with`. Never blocks: the mio waker is written first,
+    /// so every iteration sees (at least) the waker event.
+    pub fn step(&mut self) -> StepReport {
+        if self.exited {
+            return StepReport { events: vec![], exited: true };
+        }
+        EVENTS.with(|e| e.borrow_mut().clear());
+        ITERATION_DONE.with(|d| *d.borrow_mut() = false);
+        SINGLE_STEP.with(|s| *s.borrow_mut() = true);
+        std::ops::Deref::deref(&self.waker).0.wake().expect("mio waker");
+        self.accept.poll_with(&mut self.sockets);
+        SINGLE_STEP.with(|s| *s.borrow_mut() = false);
+        let done = ITERATION_DONE.with(|d| *d.borrow());
+        self.exited = !done;
+        StepReport { events: EVENTS.with(|e| e.borrow().clone()), exited: self.exited }
+    }
+
+    /// snapshot of the accept state for worker indices `0..n`
+    pub fn state(&self, n: usize) -> AcceptState {
+        let now = actix_rt::time::Instant::now();
+        AcceptState {
+            next: self.accept.next,
+            handles: self.accept.handles.iter().map(|h| h.idx()).collect(),
+            avail: (0..n).map(|i| self.accept.avail.get_available(i)).collect(),
+            any_available: self.accept.avail.available(),
+            paused: self.accept.paused,
+            timeout: self.accept.timeout,
+            socket_deadlines: self
+                .sockets
+                .iter()
+                .map(|s| s.timeout.map(|t| t.saturating_duration_since(now)))
+                .collect(),
+        }
+    }
+
+    /// `WorkerFaulted(idx)` commands the accept loop has sent to the server so far
+    pub fn drain_faulted(&mut self) -> Vec<usize> {
+        let mut out = vec![];
+        while let Ok(cmd) = self.cmd_rx.try_recv() {
+            if let ServerCommand::WorkerFaulted(idx) = cmd {
+                out.push(idx);
+            }
+        }
+        out
+    }
+}
+
+/// the waker token as a plain number
+pub const WAKER: usize = WAKER_TOKEN.0;
+
+impl AcceptDriver {
+    /// the next `accept()` on listener `token` fails with `err` (one-shot, queued)
+    pub fn inject_accept_error(&self, token: usize, err: io::Error) {
+        crate::socket::verif_inject::inject(&self.sockets[token].lst, err)
+    }
+
+    /// injected errors not yet consumed on listener `token`
+    pub fn injected_pending(&self, token: usize) -> usize {
+        crate::socket::verif_inject::pending(&self.sockets[token].lst)
+    }
+}
